@@ -835,6 +835,15 @@ def corr_opa(seed, tier):
         for t in range(1, n):
             A[t] = phi * A[t - 1] + e[t]
         A = A @ rng.normal(size=(p, p))
+        wave = i % 3 == 2
+        if wave:
+            # two propagating waves sampled over whole periods: pairs of PCs with EQUAL variance, so the decomposition of the zero-lag
+            # covariance is an arbitrary rotation inside each pair and its inverse square root is NOT symmetric
+            n, p, q = int([240, 120][i % 2]), int([16, 12][i % 2]), 4
+            k = int(rng.integers(1, q + 1))
+            tt, xx = np.arange(n)[:, None], np.arange(p)[None, :]
+            ph = rng.uniform(0, 2 * np.pi, size=2)
+            A = np.cos(2 * np.pi * (xx / p - tt / 24) + ph[0]) + 0.5 * np.cos(2 * np.pi * (2 * xx / p - tt / 60) + ph[1])
         rec = {"inv": [], "eigh": []}
         o_inv, o_eigh = np.linalg.inv, np.linalg.eigh
 
@@ -868,6 +877,7 @@ def corr_opa(seed, tier):
         Cmat = (np.linalg.pinv(S) @ Xc).T  # p x q :  Xc ~ S @ Cmat.T  (exact when all retained PCs are used)
         R.tally("tau_max", tau_max)
         R.tally("k_over_q", "full" if k == q else "truncated")
+        R.tally("inverse_factor", "symmetric" if np.abs(Cinv - Cinv.T).max() <= 1e-9 * np.abs(Cinv).max() else "NOT symmetric (degenerate PCs)")
         exp = {"C0": rec["inv"][-1][0] @ rec["inv"][-1][0].T if False else None, "target": target_in,
                "filter": m.data["filter_patterns"].transpose(fn, "mode").values, "comps": m.data["components"].transpose(fn, "mode").values,
                "scores": m.data["scores"].transpose(sn, "mode").values, "norms": m.data["norms"].values, "decorr": m.data["decorrelation_time"].values}
